@@ -44,6 +44,8 @@ package datamodeldiagram
 //@   maypanic
 //@   ensures [a-reference-is-not-a-primitive-collection] old(t.GetPrimitive()) == 0 ==> !result3
 //@   ensures [a-primitive-is-one] old(t.GetPrimitive()) != 0 ==> result3
+// a reference that names no application belongs to the application it is written in, however many segments its path has
+//@   ensures [unqualified-reference-belongs-to-the-context-application] old(t.GetPrimitive()) == 0 && old(t.GetTypeRef().GetRef().GetAppname().GetPart()) == nil ==> result0 == syslutil.JoinAppName(old(t.GetTypeRef().GetContext().GetAppname()))
 
 //@ func (*DataModelView).DrawTuple
 //@   requires v != nil && v.Symbols != nil && v.StringBuilder != nil && entity != nil && relationshipMap != nil
